@@ -318,10 +318,19 @@ class tree:
         # full expansion
         if not isinstance(restrict, boolean.base) or isinstance(restrict, atom):
             return self._fast_identify_candidates(restrict, sorter)
+        # a negated restriction doesn't pin anything down; it counts as unspecified.
         dsolutions = [
             (
-                [c.restriction for c in collect_package_restrictions(x, ("category",))],
-                [p.restriction for p in collect_package_restrictions(x, ("package",))],
+                [
+                    c.restriction
+                    for c in collect_package_restrictions(x, ("category",))
+                    if not c.negate
+                ],
+                [
+                    p.restriction
+                    for p in collect_package_restrictions(x, ("package",))
+                    if not p.negate
+                ],
             )
             for x in restrict.iter_dnf_solutions(True)
         ]
@@ -379,13 +388,7 @@ class tree:
         cat_exact = set()
         pkg_exact = set()
 
-        for x in collect_package_restrictions(
-            restrict,
-            (
-                "category",
-                "package",
-            ),
-        ):
+        for x in self._unnegated_package_restrictions(restrict):
             if x.attr == "category":
                 cat_restrict.add(x.restriction)
             elif x.attr == "package":
@@ -438,6 +441,24 @@ class tree:
                     (c, p) for c in cats_iter for p in sorter(self.packages.get(c, ()))
                 )
         return ((c, p) for c in cats_iter for p in sorter(self.packages.get(c, ())))
+
+    @staticmethod
+    def _unnegated_package_restrictions(restrict):
+        """category/package restrictions of restrict that aren't below a negation.
+
+        restrict itself may be negated (the caller accounts for that); a negated
+        node further down says nothing about where matches are to be found.
+        """
+        attrs = frozenset(("category", "package"))
+        stack = [restrict]
+        while stack:
+            node = stack.pop()
+            if isinstance(node, boolean.base):
+                if node is restrict or not node.negate:
+                    stack.extend(node.restrictions)
+            elif node is restrict or not getattr(node, "negate", False):
+                if not attrs.isdisjoint(getattr(node, "attrs", ())):
+                    yield node
 
     def _cat_filter(self, cat_restricts, negate=False):
         sentinel = not negate
